@@ -158,6 +158,25 @@ def _routine_job(state, shape):
             continue
         if back != tuple(shape):
             wit.bad("Q1|reverse plan gives another shape", f"{where} and back (sub-sizes {sub}): the plan {plan2} produces {back}")
+        # the reverse trip combined with new unit axes (unfuse and expand in one call)
+        if len(shape) <= 3 and any(x is not None for x in sub):
+            for target2 in expansions(tuple(shape), 1)[:4]:
+                wit.tick("Q1")
+                try:
+                    plan3 = shaped_evaluator(prog).call(f, [tuple(got), tuple(target2), tuple(sub)])
+                    back3, _ = apply_plan(got, sub, plan3)
+                except Unsupported as e:
+                    raise AnalysisError(f"calc_reshape_args outside the evaluable sub-language: {e}")
+                except Raised:
+                    # a new unit axis *inside* a fused group cannot be expressed by the routine: an explicit refusal, not a wrong plan
+                    wit.tick("refused-plans")
+                    continue
+                except PYERR as e:
+                    wit.bad(f"Q1|unfuse-and-expand plan: {type(e).__name__}", f"{where} then -> {target2} (sub-sizes {sub}): {type(e).__name__}: {e}")
+                    continue
+                if back3 != tuple(target2):
+                    wit.bad("Q1|unfuse-and-expand plan gives another shape",
+                            f"{where} then -> {target2} (sub-sizes {sub}): the plan {plan3} produces {back3}")
     # inserting size-one axes (also combined with merging): forward only - there is nothing to unfuse on the way back
     if len(shape) <= 3:
         bases = [shape] + [t for t in targets(shape) if t and len(t) < len(shape)][:4]
